@@ -8,6 +8,10 @@
 (*   (whenever the negated amplitude is representable: the property's      *)
 (*   domain; outside it nothing is required).                              *)
 (*   a.by = "fn" (free functions) | "trait" (the Rectifier impls).         *)
+(*   cfg.profile (both components) = build profile of the harness binary   *)
+(*   (debug | release): the SAME clauses are demanded in both -- inside    *)
+(*   the property's domain no outcome may depend on debug assertions or    *)
+(*   overflow checks.                                                      *)
 (* comp "env": {"cfg":{fmt,ch,det,n,attack,release,nza,nzr,via,srclen,     *)
 (*                     src,ctor,store}, "o":{ga,gr}}                       *)
 (*   det in full|pos|neg (peak) or rms (window n); times in quarter frames *)
@@ -30,6 +34,13 @@
 (*       in memory / the bare detector is put on the adaptor / the adaptor *)
 (*       is taken apart (into_parts) and its detector goes on: the         *)
 (*       abstract state is untouched.                                      *)
+(*     env_fmt {a:{i}}, o:{len}: the bare detector rendered with {:?}      *)
+(*       (derived Debug; with RMS detection it renders the Rms and its     *)
+(*       window) into a sink without heap memory.  An operation like any   *)
+(*       other: returns Ok, no-op on the abstract state (every later       *)
+(*       output is judged against the same envelope, gains and window),    *)
+(*       heap untouched.  The text is not judged.  (DetectEnvelope has no  *)
+(*       Debug impl: there is no env_sig_fmt.)                             *)
 (*   nza / nzr / nz = 1: the zero time was handed over as IEEE negative    *)
 (*   zero (-0.0 = 0, -0.0 >= 0: inside "attack and release times >= 0").   *)
 (*   It is the time 0 to the model: gain 0, envelope = detected value.     *)
@@ -91,6 +102,7 @@ EnvResetOK(c) ==
   /\ c.nza \in {0, 1} /\ c.nzr \in {0, 1} /\ (c.nza = 1 => c.attack = 0) /\ (c.nzr = 1 => c.release = 0)
   /\ c.srclen >= -1 /\ (c.srclen >= 0 => c.via = "signal" /\ c.src = "iter")
   /\ c.src \in {"iter", "gen"} /\ c.ctor \in {"named", "new", "rect", "from"} /\ c.store \in {"vec", "box"}
+  /\ c.profile \in {"debug", "release"}
   /\ Ev.r.k = "unit" /\ Ev.o.ok
   /\ HintOK(c.attack, Ev.o.ga) /\ HintOK(c.release, Ev.o.gr)
 
@@ -135,6 +147,8 @@ IsClone == Named("clone")
 IsMove  == Named("move")
 IsWrap  == Ev.ev = "env_wrap" /\ Me.via = "direct"
 IsParts == Ev.ev = "env_sig_parts" /\ Me.via = "signal"
+IsFmt   == Ev.ev = "env_fmt" /\ Me.via = "direct"
+FmtOK   == Ev.r.k = "unit" /\ Ev.o.len >= 0
 HeapOK == Ev.h = << 0, 0, 0 >>
 
 ---------------------------------------------------------------------------
@@ -144,7 +158,7 @@ TReset ==
   /\ Consume /\ Ev.ev = "reset"
   /\ LET c == Ev.cfg IN
      CASE Ev.comp = "rect" ->
-            IF c.fmt \in AllFormats /\ c.ch >= 1 /\ Ev.r.k = "unit"
+            IF c.fmt \in AllFormats /\ c.ch >= 1 /\ c.profile \in {"debug", "release"} /\ Ev.r.k = "unit"
               THEN cf' = [comp |-> "rect", fmt |-> c.fmt, ch |-> c.ch] /\ skip' = FALSE /\ ins' = << >>
               ELSE Reject /\ cf' = NoCfg /\ ins' = << >>
        [] Ev.comp = "env" ->
@@ -177,6 +191,10 @@ TEnv ==
        THEN /\ Upd(IF Ev.a.which = "attack" THEN [Me EXCEPT !.g.a = Dec(F32, Ev.o.hint)]
                                             ELSE [Me EXCEPT !.g.r = Dec(F32, Ev.o.hint)])   \* a setter changes the gain only
             /\ UNCHANGED << cf, skip >>
+            /\ (IF HeapOK THEN TRUE ELSE PrintT(<< "HEAP", l, Ev.ev >>))
+     \* {:?} of the detector: no-op on the abstract state, a steady-state call like the others
+     ELSE IF IsFmt /\ FmtOK
+       THEN /\ UNCHANGED << cf, ins, skip >>
             /\ (IF HeapOK THEN TRUE ELSE PrintT(<< "HEAP", l, Ev.ev >>))
      \* clones, moves and (un)wrapping are not steady-state calls: no heap conjunct
      ELSE IF IsClone /\ CloneOK
